@@ -59,6 +59,9 @@ def scenarios(tier):
         out.append(("%s|cold|none-result" % be, be, "cold", [[("gnone", 1)], [("gnone", 1)]]))
         out.append(("%s|cold|ignore-result" % be, be, "cold", [[("g!ignore", 1)], [("g!ignore", 1)]]))
     out.append(("fs+cache-one|store|ignore-vs-call", "fs+cache-one", "store", [[("g!ignore", 1)], [("g", 1)]]))
+    # the same call spelled directly and through a keyword partial application (one memento, one flight)
+    out.append(("mem|cold|partial-spelling", "mem", "cold", [[("g", 1)], [("g%kw", 1)]]))
+    out.append(("fs|cold|partial-spelling", "fs", "cold", [[("g%kw", 1)], [("g", 1)]]))
     # call trees that cross (ping(1) -> pong(0) against pong(1) -> ping(0)): the per-call locks must not be taken in a cycle
     out.append(("mem|cold|crossing-trees", "mem", "cold", [[("ping", 1)], [("pong", 1)]]))
     # different calls with byte-identical results / under one key override: afterwards a fresh backend serves them all
@@ -157,7 +160,7 @@ def _invoke(fx, fn, arg):
     """arg is one argument, or a list of arguments = one call_batch over them"""
     if isinstance(arg, list):
         return fx.fobj(fn).call_batch([{"x": a} for a in arg])
-    return _plainify(fx.fobj(fn)(arg))
+    return _plainify(fx.invoke(fn, arg))
 
 
 def _plainify(v):
